@@ -106,10 +106,11 @@ def gen_probes(rng, entries, n_abs, xrefs=()):
     return probes
 
 
-def run_find(exe, typelib, probes, noindex, tmp):
+def run_find(exe, typelib, probes, noindex, tmp, lazy=False):
     pf = os.path.join(tmp, 'probes.txt')
     open(pf, 'w').write(''.join('%s %s\n' % p for p in probes))
-    args = [exe, typelib, pf] + (['noindex'] if noindex else [])
+    mode = ('lazy' if lazy else '') + ('noindex' if noindex else '')
+    args = [exe, typelib, pf] + ([mode] if mode else [])
     p = subprocess.run(args, capture_output=True, text=True, timeout=600)
     err = None
     if p.returncode != 0:
@@ -197,6 +198,10 @@ def main(tier, seed):
             probes = gen_probes(rng, entries, min(n, 300) + 20, xrefs)
             d1, r1, e1 = run_find(exe_f, tl, probes, False, tmp)
             d2, r2, e2 = run_find(exe_f, tl, probes, True, tmp)
+            # the same probes with a history: asked (and missed) before the typelib is loaded, lazily, and asked again
+            d3, r3, e3 = run_find(exe_f, tl, probes, n % 2 == 1, tmp, lazy=True)
+            if e3:
+                ck.tie_broken('correspondence', 'find_driver (lazy load after misses) failed: %s' % e3)
             if e1 or e2:
                 # the lookups answered before the driver died are still judged below; the probe it died on is the input
                 for path, rr, ee in (('index', r1, e1), ('linear', r2, e2)):
@@ -219,9 +224,10 @@ def main(tier, seed):
                 if e[2] and e[2] not in dmap:
                     dmap[e[2]] = e[0]
             # the property, judged directly on the answers
-            for (k, a), x, y in zip(probes, r1, r2):
+            r3x = r3 if (not e3 and len(r3) == len(probes)) else r1
+            for (k, a), x, y, z in zip(probes, r1, r2, r3x):
                 want = a if (k in 'NL' and a in nameset) else gmap.get(a) if k in 'GT' else dmap.get(a) if k == 'E' else None
-                for path, got in (('index', x), ('linear', y)):
+                for path, got in (('index', x), ('linear', y), ('asked before a lazy load and again after it', z)):
                     if got != want:
                         ck.failing_input('lookup by %s returned %r, expected %r (%s path)' % (k, got, want, path),
                                          dict(n_entries=n, probe=[k, a], names=names if n <= 300 else names[:20]))
